@@ -11,7 +11,7 @@ From Coq Require Import List Bool Arith NArith Lia Relations Permutation.
 Import ListNotations.
 From BB Require Import BN Brute SpaceFacts TrapFacts PercolateFacts AttractorFacts Diagram Invariants Checks Filter
   Strict PetriNet Control Meta FilterFacts PetriNetFacts TrappistFacts DiagramStruct DiagramSem1 DiagramCache
-  DiagramDepth DiagramComplete Termination ControlFacts MetaFacts Candidates StrictFacts MinExpandFacts CandidatesFacts SymbolicTest SymbolicTestFacts Signed ReductionFacts ControlFacts2 Main.
+  DiagramDepth DiagramComplete Termination ControlFacts MetaFacts Candidates StrictFacts MinExpandFacts CandidatesFacts SymbolicTest SymbolicTestFacts Signed ReductionFacts ControlFacts2 Main Blocks BlocksFacts ObsFacts OwnerFacts CandidatesTerm.
 
 Theorem C15_step_SWF : forall (fuel : nat) (N : net) (cfg : config) (d : sd) (o : op), SWF N d -> SWF N (fst (step fuel N cfg d o)).
 Proof. exact step_SWF. Qed.
@@ -39,6 +39,13 @@ Proof. exact bfs_complete. Qed.
 Theorem C15_dfs_complete : forall (fuel : nat) (N : net) (cfg : config) (d d' : sd), 1 <= max_motifs cfg -> SWF N d -> NoStubEdges d -> EdgeStrict d -> Rooted d -> expand_dfs fuel N cfg d None None None = (d', RBool true) -> AllExpanded d'.
 Proof. exact dfs_complete. Qed.
 
+(* also for block expansion, whatever it returns *)
+Theorem C15_block_expansion_any_result : forall (fuel : nat) (N : net) (cfg : config) (d : sd) (maa opt : bool) (sz : option nat) (tape : list bool), SWF N d -> SWF N (fst (expand_block fuel N cfg d maa opt sz tape)).
+Proof. exact expand_block_SWF. Qed.
+
+Theorem C15_block_expansion_extends : forall (fuel : nat) (N : net) (cfg : config) (d : sd) (maa opt : bool) (sz : option nat) (tape : list bool), SWF N d -> extends d (fst (expand_block fuel N cfg d maa opt sz tape)).
+Proof. exact expand_block_extends. Qed.
+
 Print Assumptions C15_step_SWF.
 Print Assumptions C15_step_Faithful_all.
 Print Assumptions C15_step_NoStubEdges.
@@ -47,3 +54,5 @@ Print Assumptions C15_step_extends.
 Print Assumptions C15_expand_one_raise_unchanged.
 Print Assumptions C15_bfs_complete.
 Print Assumptions C15_dfs_complete.
+Print Assumptions C15_block_expansion_any_result.
+Print Assumptions C15_block_expansion_extends.
